@@ -96,33 +96,128 @@ func jsonReflectEdges(p *core.Program, call ssa.CallInstruction) []*ssa.Function
 func ReachFrom(p *core.Program, entries []*ssa.Function) *Reach {
 	cg := p.CallGraph()
 	r := &Reach{Parent: map[*ssa.Function]*ssa.Function{}, Site: map[*ssa.Function]ssa.CallInstruction{}}
-	seen := map[*ssa.Function]bool{}
-	var work []*ssa.Function
+	// The call graph is context-insensitive: an iterator helper that calls its function-typed parameter reaches
+	// every function literal any caller hands it. The traversal therefore keeps, for a module function entered
+	// through a static call, which functions that call binds to its function-typed parameters, and follows a call
+	// through such a parameter only to those (one level of call-site sensitivity, only where the binding is known).
+	type ctx map[*ssa.Parameter][]*ssa.Function
+	type item struct {
+		fn  *ssa.Function
+		ctx ctx
+	}
+	keyOf := func(c ctx) string {
+		if len(c) == 0 {
+			return ""
+		}
+		var parts []string
+		for prm, fs := range c {
+			s := prm.Name() + "="
+			for _, f := range fs {
+				s += f.String() + ","
+			}
+			parts = append(parts, s)
+		}
+		sort.Strings(parts)
+		return strings.Join(parts, ";")
+	}
+	seen := map[*ssa.Function]map[string]bool{}
+	mark := func(fn *ssa.Function, c ctx) bool {
+		k := keyOf(c)
+		if seen[fn] == nil {
+			seen[fn] = map[string]bool{}
+		}
+		if seen[fn][k] || seen[fn][""] { // already explored with this binding, or without any restriction
+			return false
+		}
+		seen[fn][k] = true
+		return true
+	}
+	var work []item
+	ordered := map[*ssa.Function]bool{}
 	for _, e := range entries {
-		if e != nil && !seen[e] {
-			seen[e] = true
-			work = append(work, e)
+		if e != nil && mark(e, nil) {
+			work = append(work, item{e, nil})
 		}
 	}
+	bindingFor := func(cur item, site ssa.CallInstruction, callee *ssa.Function) ctx {
+		if site == nil || callee == nil || !core.InModule(callee) || site.Common().StaticCallee() != callee {
+			return nil
+		}
+		var out ctx
+		args := site.Common().Args
+		for i, prm := range callee.Params {
+			if i >= len(args) {
+				break
+			}
+			if _, isSig := prm.Type().Underlying().(*types.Signature); !isSig {
+				continue
+			}
+			var fs []*ssa.Function
+			switch a := args[i].(type) {
+			case *ssa.MakeClosure:
+				if f, ok := a.Fn.(*ssa.Function); ok {
+					fs = []*ssa.Function{f}
+				}
+			case *ssa.Function:
+				fs = []*ssa.Function{a}
+			case *ssa.Parameter:
+				fs = cur.ctx[a]
+			}
+			if fs != nil {
+				if out == nil {
+					out = ctx{}
+				}
+				out[prm] = fs
+			}
+		}
+		return out
+	}
 	for len(work) > 0 {
-		fn := work[0]
+		cur := work[0]
+		fn := cur.fn
 		work = work[1:]
-		r.Order = append(r.Order, fn)
+		if !ordered[fn] {
+			ordered[fn] = true
+			r.Order = append(r.Order, fn)
+		}
 		var outs []*callgraph.Edge
 		if n := cg.Nodes[fn]; n != nil {
 			outs = append(outs, n.Out...)
 		}
 		sort.SliceStable(outs, func(i, j int) bool { return outs[i].Callee.Func.String() < outs[j].Callee.Func.String() })
 		push := func(callee *ssa.Function, site ssa.CallInstruction) {
-			if callee == nil || seen[callee] {
+			if callee == nil {
 				return
 			}
-			// do not descend into stdlib internals beyond what can call back: we
-			// still traverse them, they are cheap, but never report them.
-			seen[callee] = true
-			r.Parent[callee] = fn
-			r.Site[callee] = site
-			work = append(work, callee)
+			// a call through a bound function-typed parameter reaches only the functions bound to it
+			if site != nil && !site.Common().IsInvoke() {
+				if prm, ok := site.Common().Value.(*ssa.Parameter); ok {
+					if fs, known := cur.ctx[prm]; known {
+						hit := false
+						for _, f := range fs {
+							hit = hit || f == callee
+						}
+						if !hit {
+							return
+						}
+					}
+				}
+			}
+			c := bindingFor(cur, site, callee)
+			if !mark(callee, c) {
+				return
+			}
+			if _, has := r.Parent[callee]; !has {
+				isEntry := false
+				for _, e := range entries {
+					isEntry = isEntry || e == callee
+				}
+				if !isEntry {
+					r.Parent[callee] = fn
+					r.Site[callee] = site
+				}
+			}
+			work = append(work, item{callee, c})
 		}
 		for _, e := range outs {
 			push(e.Callee.Func, e.Site)
